@@ -3,11 +3,22 @@ C11 — output is deterministic: independent of file order, grouping and history
 
 `report` = stable sort (by the `sort_errors` key) of the kept diagnostics of all files
 (Model/Report.lean).  The theorems are for any number of files and diagnostics.
+
+Further down, on the WHOLE-RUN model (Model/Run.lean, `runRefurb` = what `run_refurb` returns):
+  * grouping — `run_grouping_two[_merge]`, `run_grouping_partition[_merge]`, `run_grouping_any_partition`,
+    `run_grouping_lines_plain`, `run_one_by_one` (+ `grouping_needs_paths`: the hypothesis cannot be dropped);
+  * history — `history_independent` over the machine of Model/History.lean (process-global components, runs that may
+    end after any instruction), the witnesses `leak_breaks_independence`, `position_keyed_set_leaks`,
+    `unrestored_limit_leaks`, and `today_no_component_leaks` & co. over Generated/Globals.lean (regenerated from /repo
+    by harness/extract_c11.py).  Helper lemmas: Lemmas/RunC11.lean.
 -/
 import RefurbVerif.Model.Report
 import RefurbVerif.Lemmas.Sort
 import RefurbVerif.Lemmas.Order
 import RefurbVerif.Generated.History
+import RefurbVerif.Generated.Globals
+import RefurbVerif.Lemmas.RunC11
+import RefurbVerif.Props.C13
 
 namespace RefurbVerif.C11
 open RefurbVerif
@@ -229,5 +240,499 @@ example : KeyInjective .filename [d1, d2] := by
   intro a ha b hb h1 h2
   simp only [List.mem_cons, List.mem_nil_iff, or_false] at ha hb
   rcases ha with rfl | rfl <;> rcases hb with rfl | rfl <;> first | rfl | (revert h1 h2; decide +kernel)
+
+end RefurbVerif.C11
+
+/-! ## Grouping on the whole-run model (Model/Run.lean)
+
+`runRefurb (i.withFiles files) s` is what `run_refurb` returns for the file list `files` (same settings, same
+checks, same environment): the raw diagnostics of the loaded checks, stamped with the file's path, filtered by
+`# noqa` comments and amend tables, stably sorted.  The theorems are for any number of files, diagnostics and
+checks and for both sort orders.  `none` = the `# noqa` line lookup raised `IndexError` (main.py:89). -/
+
+namespace RefurbVerif.C11
+open RefurbVerif RefurbVerif.Run
+
+/-- no two entries of the file list carry the same path -/
+def DistinctPaths (files : List FileIn) : Prop := (files.map (·.path)).Nodup
+
+theorem DistinctPaths.nodup {files : List FileIn} (h : DistinctPaths files) : files.Nodup := by
+  unfold DistinctPaths List.Nodup at *
+  rw [List.pairwise_map] at h
+  exact h.imp (fun hne e => hne (by rw [e]))
+
+theorem DistinctPaths.identify {files : List FileIn} (h : DistinctPaths files) : PathsIdentify files := by
+  unfold DistinctPaths List.Nodup at h
+  rw [List.pairwise_map] at h
+  induction files with
+  | nil => intro f hf; cases hf
+  | cons a rest ih =>
+    rw [List.pairwise_cons] at h
+    intro f hf g hg hp
+    rcases List.mem_cons.mp hf with rfl | hf' <;> rcases List.mem_cons.mp hg with rfl | hg'
+    · rfl
+    · exact absurd hp (h.1 g hg')
+    · exact absurd hp.symm (h.1 f hf')
+    · exact ih h.2 f hf' g hg' hp
+
+/-- **The documented order, for the whole run**: whatever `run_refurb` returns for a list of files is sorted by
+    the `sort_errors` key of the settings. -/
+theorem run_documented_order (i : RunInput) (s : Settings) (files : List FileIn) (r : List Item)
+    (h : runRefurb (i.withFiles files) s = some r) : Sorted (leItem (sortByOf s)) r := by
+  simp only [runRefurb, RunInput.withFiles, runReport] at h
+  cases hn : noqaFilter i.lineCfg (srcOf files) (amendB i.resolver s i.checks) (collected s i.checks files) with
+  | none => simp [hn] at h
+  | some k =>
+    simp only [hn, Option.map_some, Option.some.injEq] at h
+    subst h
+    exact sorted_ssort _ (leItem_total _) (leItem_trans _) _
+
+/-- **(a) Two groups.**  Checking the files `A ++ B` in one run gives the stable sort of the report of `A` followed
+    by the report of `B` (and raises exactly when one of the two runs raises).  Needed: the paths identify the
+    files (`PathsIdentify (A ++ B)`), so that a `# noqa` lookup reads the text of the file the diagnostic is
+    about.  NOT needed: any condition on ties or on `--debug` — `A`'s items stay before `B`'s, and the sort is
+    stable. -/
+theorem run_grouping_two (i : RunInput) (s : Settings) (A B : List FileIn) (hid : PathsIdentify (A ++ B)) :
+    runRefurb (i.withFiles (A ++ B)) s =
+      match runRefurb (i.withFiles A) s, runRefurb (i.withFiles B) s with
+      | some ra, some rb => some (ssort (leItem (sortByOf s)) (ra ++ rb))
+      | _, _ => none := by
+  simp only [runRefurb, RunInput.withFiles]
+  rw [collected_append, runReport_append,
+    runReport_part _ _ _ s i.checks (A ++ B) A hid (fun f hf => List.mem_append_left _ hf),
+    runReport_part _ _ _ s i.checks (A ++ B) B hid (fun f hf => List.mem_append_right _ hf)]
+  rfl
+
+/-- **(a), as a merge.**  Both reports are sorted, so the joint report is their sorted merge (ties: `A` first): a
+    user who checks two sets of independent files separately and merges the two listings by the sort key has the
+    listing of the joint run. -/
+theorem run_grouping_two_merge (i : RunInput) (s : Settings) (A B : List FileIn) (ra rb : List Item)
+    (hid : PathsIdentify (A ++ B)) (ha : runRefurb (i.withFiles A) s = some ra)
+    (hb : runRefurb (i.withFiles B) s = some rb) :
+    runRefurb (i.withFiles (A ++ B)) s = some (List.merge ra rb (leItem (sortByOf s))) := by
+  rw [run_grouping_two i s A B hid, ha, hb]
+  simp only
+  rw [merge_eq_ssort (leItem _) (leItem_trans _) ra rb (run_documented_order i s A ra ha)
+    (run_documented_order i s B rb hb)]
+
+theorem reportsOf_sorted (i : RunInput) (s : Settings) : ∀ (groups : List (List FileIn)) (rs : List (List Item)),
+    reportsOf i s groups = some rs → ∀ r ∈ rs, Sorted (leItem (sortByOf s)) r := by
+  intro groups
+  induction groups with
+  | nil => intro rs h; simp only [reportsOf, Option.some.injEq] at h; subst h; simp
+  | cons g gs ih =>
+    intro rs h r hr
+    simp only [reportsOf] at h
+    cases hg : runRefurb (i.withFiles g) s with
+    | none => simp [hg] at h
+    | some r₀ =>
+      cases hgs : reportsOf i s gs with
+      | none => simp [hg, hgs] at h
+      | some rs₀ =>
+        simp only [hg, hgs, Option.some.injEq] at h
+        subst h
+        rcases List.mem_cons.mp hr with rfl | hr
+        · exact run_documented_order i s g _ hg
+        · exact ih rs₀ hgs r hr
+
+/-- **(b) Any number of groups** (induction over the groups): the run over all files, group after group, returns
+    the stable sort of the group reports put one after the other; it raises exactly when one group's run raises. -/
+theorem run_grouping_partition (i : RunInput) (s : Settings) : ∀ (groups : List (List FileIn)),
+    PathsIdentify groups.flatten →
+    runRefurb (i.withFiles groups.flatten) s
+      = (reportsOf i s groups).map (fun rs => ssort (leItem (sortByOf s)) rs.flatten) := by
+  intro groups
+  induction groups with
+  | nil => intro _; simp [reportsOf, runRefurb, RunInput.withFiles, collected, runReport, noqaFilter, ssort]
+  | cons g gs ih =>
+    intro hid
+    rw [List.flatten_cons] at hid ⊢
+    rw [run_grouping_two i s g gs.flatten hid, ih (hid.sub (fun f hf => List.mem_append_right _ hf))]
+    simp only [reportsOf]
+    cases hg : runRefurb (i.withFiles g) s with
+    | none => simp
+    | some r =>
+      cases hgs : reportsOf i s gs with
+      | none => simp
+      | some rs =>
+        simp only [Option.map_some, Option.some.injEq, List.flatten_cons]
+        have hr := ssort_of_sorted (leItem (sortByOf s)) r (run_documented_order i s g r hg)
+        conv => lhs; rw [← hr]
+        rw [ssort_append_ssort _ (leItem_total _) (leItem_trans _)]
+
+/-- **(b), as a k-way merge**: the joint report is the sorted merge of the k group reports. -/
+theorem run_grouping_partition_merge (i : RunInput) (s : Settings) (groups : List (List FileIn))
+    (rs : List (List Item)) (hid : PathsIdentify groups.flatten) (hrs : reportsOf i s groups = some rs) :
+    runRefurb (i.withFiles groups.flatten) s = some (mergeAll (sortByOf s) rs) := by
+  rw [run_grouping_partition i s groups hid, hrs, Option.map_some,
+    (sorted_mergeAll (sortByOf s) rs (reportsOf_sorted i s groups rs hrs)).1]
+
+/-- the order of the file arguments does not matter for what `run_refurb` returns (the `runRefurb` half of
+    Props/C10 `run_files_perm`, which is stated after this file) -/
+theorem runRefurb_perm (i : RunInput) (s : Settings) (files files' : List FileIn) (hp : files.Perm files')
+    (hid : PathsIdentify files) (hd : s.debug = false) :
+    runRefurb (i.withFiles files') s = runRefurb (i.withFiles files) s := by
+  simp only [runRefurb, RunInput.withFiles, ← srcOf_perm files files' hp hid]
+  unfold collected
+  symm
+  apply runReport_perm_blocks _ _ _ _ _ _ _ hp
+  intro f hf g hg hfg a ha b hb'
+  have hpath : f.path ≠ g.path := fun h => hfg (hid f hf g hg h)
+  unfold fileItems at ha hb'
+  simp only [hd, Bool.false_eq_true, ↓reduceIte, List.nil_append] at ha hb'
+  obtain ⟨ra, _, rfl⟩ := List.mem_map.mp ha
+  obtain ⟨rb, _, rfl⟩ := List.mem_map.mp hb'
+  have hsep := key_separates_files (sortByOf s) (stamp f.path ra) (stamp g.path rb) hpath
+  unfold eqv
+  cases h1 : leItem (sortByOf s) (.diag (stamp f.path ra)) (.diag (stamp g.path rb)) with
+  | false => rfl
+  | true =>
+    cases h2 : leItem (sortByOf s) (.diag (stamp g.path rb)) (.diag (stamp f.path ra)) with
+    | false => rfl
+    | true => exact absurd ⟨h1, h2⟩ hsep
+
+/-- **(b), for a partition in the proper sense**: the files of the joint run, in ANY order on the command line,
+    split into k groups in any way (`files` is a permutation of the groups put together).  Needed besides
+    `PathsIdentify`: no `--debug` (the tree dumps are plain strings without a file name; two of them could tie). -/
+theorem run_grouping_any_partition (i : RunInput) (s : Settings) (files : List FileIn) (groups : List (List FileIn))
+    (rs : List (List Item)) (hp : files.Perm groups.flatten) (hid : PathsIdentify files) (hd : s.debug = false)
+    (hrs : reportsOf i s groups = some rs) :
+    runRefurb (i.withFiles files) s = some (mergeAll (sortByOf s) rs) := by
+  have hid' : PathsIdentify groups.flatten :=
+    fun f hf g hg h => hid f (hp.symm.subset hf) g (hp.symm.subset hg) h
+  rw [runRefurb_perm i s groups.flatten files hp.symm hid' hd]
+  exact run_grouping_partition_merge i s groups rs hid' hrs
+
+theorem formatItem_plain_rel (rel rel' : Str → Str) (it : Item) :
+    formatItem .plain rel it = formatItem .plain rel' it := by
+  cases it <;> rfl
+
+/-- **(c) The printed lines, plain format** (`--quiet`, every rendered item on one line): the lines the joint run
+    prints are the renderings of the merged group reports, in that order — and every group's own run prints the
+    renderings of its report, so the joint listing is the group listings merged by the sort key. -/
+theorem run_grouping_lines_plain (i : RunInput) (s : Settings) (groups : List (List FileIn)) (rs : List (List Item))
+    (joint : List Item) (rel : Str → Str) (hid : PathsIdentify groups.flatten)
+    (hrs : reportsOf i s groups = some rs) (hj : runRefurb (i.withFiles groups.flatten) s = some joint)
+    (hne : joint ≠ []) (hnl : ∀ it ∈ joint, C13.NoNl (formatItem .plain rel it)) :
+    splitAt '\n' (formatErrors .plain rel true joint) = (mergeAll (sortByOf s) rs).map (formatItem .plain rel) ∧
+      ∀ r ∈ rs, r ≠ [] → splitAt '\n' (formatErrors .plain rel true r) = r.map (formatItem .plain rel) := by
+  have hjm := run_grouping_partition_merge i s groups rs hid hrs
+  rw [hj, Option.some.injEq] at hjm
+  refine ⟨?_, ?_⟩
+  · rw [← hjm]; exact C13.same_items_same_order _ _ joint hne hnl
+  · intro r hr hrne
+    apply C13.same_items_same_order _ _ r hrne
+    intro it hit
+    apply hnl
+    -- every item of a group report is an item of the joint report
+    have hsort := (sorted_mergeAll (sortByOf s) rs (reportsOf_sorted i s groups rs hrs)).1
+    rw [hjm, hsort, mem_ssort]
+    exact List.mem_flatten.mpr ⟨r, hr, hit⟩
+
+theorem flatMap_single {β : Type} (files : List FileIn) (F : FileIn) (X : List β) (hn : files.Nodup) (hF : F ∈ files) :
+    files.flatMap (fun g => if g = F then X else []) = X := by
+  induction files with
+  | nil => cases hF
+  | cons g rest ih =>
+    rw [List.nodup_cons] at hn
+    simp only [List.flatMap_cons]
+    by_cases hg : g = F
+    · subst hg
+      have : rest.flatMap (fun g' => if g' = g then X else []) = [] := by
+        rw [List.flatMap_eq_nil_iff]
+        intro g' hg'
+        have : g' ≠ g := fun e => hn.1 (e ▸ hg')
+        simp [this]
+      simp [this]
+    · have hF' : F ∈ rest := by
+        rcases List.mem_cons.mp hF with h | h
+        · exact absurd h.symm hg
+        · exact h
+      simp [hg, ih hn.2 hF']
+
+theorem flatMap_congr_mem {α β : Type} (l : List α) (f g : α → List β) (h : ∀ x ∈ l, f x = g x) :
+    l.flatMap f = l.flatMap g := by
+  induction l with
+  | nil => rfl
+  | cons a l ih =>
+    simp only [List.flatMap_cons]
+    rw [h a (by simp), ih (fun x hx => h x (List.mem_cons_of_mem _ hx))]
+
+/-- **(d) One by one.**  In a joint run over files with pairwise different paths (no `--debug`), the diagnostics
+    about file `F` are exactly — same items, same order — what a run on `F` alone returns: checking `F` together
+    with other files neither adds, drops nor reorders anything said about `F`. -/
+theorem run_one_by_one (i : RunInput) (s : Settings) (files : List FileIn) (F : FileIn) (joint : List Item)
+    (hdist : DistinctPaths files) (hF : F ∈ files) (hd : s.debug = false)
+    (hj : runRefurb (i.withFiles files) s = some joint) :
+    runRefurb (i.withFiles [F]) s = some (joint.filter (Item.isAbout F.path)) := by
+  simp only [runRefurb, RunInput.withFiles] at hj ⊢
+  have hf := runReport_filter _ _ _ _ (Item.isAbout F.path) _ _ hj
+  rw [← hf, ← runReport_part _ _ _ s i.checks files [F] hdist.identify (by simpa using hF)]
+  congr 1
+  unfold collected
+  rw [List.filter_flatMap, List.flatMap_cons, List.flatMap_nil, List.append_nil]
+  rw [flatMap_congr_mem files _ (fun g => if g = F then fileItems s i.checks F else [])]
+  · exact (flatMap_single files F _ hdist.nodup hF).symm
+  · intro g hgm
+    unfold fileItems
+    simp only [hd, Bool.false_eq_true, ↓reduceIte, List.nil_append]
+    by_cases hg : g = F
+    · subst hg
+      simp only [↓reduceIte]
+      apply List.filter_eq_self.mpr
+      intro it hit
+      obtain ⟨r, _, rfl⟩ := List.mem_map.mp hit
+      simp [Item.isAbout, stamp]
+    · simp only [hg, ↓reduceIte]
+      rw [List.filter_eq_nil_iff]
+      intro it hit
+      obtain ⟨r, _, rfl⟩ := List.mem_map.mp hit
+      have : g.path ≠ F.path := fun e => hg (hdist.identify g hgm F hF e)
+      simp [Item.isAbout, stamp, this]
+
+end RefurbVerif.C11
+
+/-! ## History on the machine of Model/History.lean
+
+A process may call `run_refurb` any number of times.  What one call can hand to the next is the process-global state
+listed (and regenerated from /repo) in Generated/Globals.lean; `History.runIn` threads it through a run in main.py's
+order and returns everything the run READ from it.  A run's report is a function of its own input and of that
+trace (by the translator's scan the run reads no other process-global state of refurb), so a run whose trace does
+not depend on the runs before it prints what a fresh process would print. -/
+
+namespace RefurbVerif.C11
+open RefurbVerif
+
+/-- **History independence** (induction over the history; the runs are arbitrary: any requests in any phase,
+    adaptively, any values, finished or ended early after any instruction).  If no component of the script is
+    classified `leaks`, then after ANY sequence of earlier runs in the same process the next run reads from the
+    process-global state exactly what it would read in a fresh interpreter — so it prints the same report.
+    Residual assumption, built into the keys: `FreshIds` (`History.resolve`): `id()` of an object of an earlier run
+    is not handed out again to an object of this run. -/
+theorem history_independent (T : History.Script) (h : History.noLeaks T = true) (hist : List History.Input)
+    (next : History.Input) :
+    (History.runIn T (History.after T History.init hist) next).1 = (History.runIn T History.init next).1 :=
+  History.runIn_sim T (History.noLeaks_all T h) _ (History.inv_after T hist _ (History.inv_init T)) next
+
+/-- whatever the run computes from what it read (its report, its exit status) is therefore the same -/
+theorem history_independent_output {β : Type} (T : History.Script) (h : History.noLeaks T = true)
+    (hist : List History.Input) (next : History.Input) (report : List (Option Int) → β) :
+    report (History.runIn T (History.after T History.init hist) next).1 = report (History.runIn T History.init next).1 := by
+  rw [history_independent T h hist next]
+
+/-- the same for a whole sequence: every run of a history reads what it would read as the first run of a process -/
+theorem history_independent_every_run (T : History.Script) (h : History.noLeaks T = true) (before : List History.Input)
+    (i : History.Input) (later : List History.Input) :
+    (History.runIn T (History.after T History.init before) i).1 = (History.runIn T History.init i).1 ∧
+      History.Inv T (History.after T History.init (before ++ i :: later)) :=
+  ⟨history_independent T h before i, History.inv_after T _ _ (History.inv_init T)⟩
+
+/-! ### a `leaks` component does break it: witnesses -/
+
+/-- one request, then stop -/
+def ask (c : Nat) (o : History.Op) (n : Nat) : History.Prog := .act c o n (fun _ => .done)
+
+/-- a run that makes request `(c, o, n)` in phase `0` and computes `v` for every key -/
+def oneRun (c : Nat) (o : History.Op) (n : Nat) (v : Int) (stop : Option Nat := none) : History.Input :=
+  { val := fun _ _ => v, prog := fun idx => if idx = 0 then ask c o n else .done, stop := stop }
+
+/-- a `@cache` that no statement of the run clears (refurb before commit 8dd0bf7; a new cached helper) -/
+def leakyCache : History.Script := [.free [(0, .memo .stable)]]
+
+/-- **The converse, by a witness**: with a never-cleared cache the script is classified `leaks`, and there are two
+    histories — none, and one earlier run that read the file when it still had other contents — after which the
+    same run reads different things. -/
+theorem leak_breaks_independence :
+    History.classify leakyCache 0 = .leaks ∧
+      (History.runIn leakyCache (History.after leakyCache History.init [oneRun 0 (.memo .stable) 7 1]) (oneRun 0 (.memo .stable) 7 2)).1
+        ≠ (History.runIn leakyCache (History.after leakyCache History.init []) (oneRun 0 (.memo .stable) 7 2)).1 := by
+  decide +kernel
+
+/-- a set keyed by POSITION (line, column) instead of `id(node)` (`ignore.add((node.line, node.column))`): a stable
+    key, never cleared -/
+def positionKeyedSet : History.Script := [.free [(0, .get .stable), (0, .put .stable)]]
+
+/-- a position-keyed set leaks: a node at a position an earlier run marked is skipped by the next run.  (With
+    `id(node)` keys the same script is `keyedByLiveNodeIdentity` — the difference is exactly `FreshIds`.) -/
+theorem position_keyed_set_leaks :
+    History.classify positionKeyedSet 0 = .leaks ∧
+      History.classify [.free [(0, .get .liveNode), (0, .put .liveNode)]] 0 = .keyedByLiveNodeIdentity ∧
+      (History.runIn positionKeyedSet (History.after positionKeyedSet History.init [oneRun 0 (.put .stable) 3 1]) (oneRun 0 (.get .stable) 3 1)).1
+        ≠ (History.runIn positionKeyedSet History.init (oneRun 0 (.get .stable) 3 1)).1 := by
+  decide +kernel
+
+/-- the recursion limit raised for the build and put back by a statement AFTER it (not in a `finally`) -/
+def limitRestoredOnSuccess : History.Script := [.op 0 (.bump 1000), .free [(0, .get .cell)], .op 0 (.bump (-1000))]
+
+/-- such a limit leaks through a FAILED run: a run that ends inside the build leaves the limit raised, and the next
+    run — whose traversals of deep files stop where the limit says — reads a different limit. -/
+theorem unrestored_limit_leaks :
+    History.classify limitRestoredOnSuccess 0 = .leaks ∧
+      (History.runIn limitRestoredOnSuccess
+          (History.after limitRestoredOnSuccess History.init [{ oneRun 0 (.get .cell) 0 0 with stop := some 2 }])
+          { oneRun 0 (.get .cell) 0 0 with prog := fun idx => if idx = 1 then ask 0 (.get .cell) 0 else .done }).1
+        ≠ (History.runIn limitRestoredOnSuccess History.init
+          { oneRun 0 (.get .cell) 0 0 with prog := fun idx => if idx = 1 then ask 0 (.get .cell) 0 else .done }).1 := by
+  decide +kernel
+
+/-! ### today's components (Generated/Globals.lean, regenerated from /repo) -/
+
+/-- **Today no component leaks**: every piece of process-global state the scan of /repo/refurb finds — module-level
+    containers a function stores into, `functools` caches, module attributes assigned at run time, interpreter
+    settings, the import path — is cleared at the start of a run, overwritten before it is read, never written, or
+    keyed by the identity of live nodes.  Fails when a new never-cleared cache appears, when `cache_clear()` goes,
+    when an interpreter setting is changed relative to its old value, when a table is keyed by something other
+    than `id(...)`. -/
+theorem today_no_component_leaks : History.noLeaks Generated.globalsTable.script = true := by decide +kernel
+
+/-- the components whose soundness rests on `FreshIds`: the allow-list.  These five tables hold `id(node)` of nodes
+    of the tree being visited — FURB179 (`use_chain_from_iterable.ignore`), FURB140 (`use_starmap.ignore`), FURB185
+    (`no_copy_with_merge.ignored_nodes`), FURB123's `use_str_func.ignore`, FURB188
+    (`remove_prefix_or_suffix.ignored_nodes`) — to keep a child node from being reported again after its parent was;
+    a sixth table of this kind must be looked at by a person (is the key really the identity of an object that
+    lives as long as the entry is looked up?) and added here. -/
+def identityKeyedAllowList : List String :=
+  ["refurb.checks.itertools.use_chain_from_iterable.ignore", "refurb.checks.itertools.use_starmap.ignore",
+   "refurb.checks.readability.no_copy_with_merge.ignored_nodes", "refurb.checks.readability.use_str_func.ignore",
+   "refurb.checks.string.remove_prefix_or_suffix.ignored_nodes"]
+
+theorem today_identity_keyed_are_allowed :
+    ((Generated.globalsTable.disciplines.filter (fun p => p.2 == .keyedByLiveNodeIdentity)).map (·.1)).all
+      (identityKeyedAllowList.contains ·) = true := by decide +kernel
+
+/-- what the by-execution probe saw agrees with the scan: every module-level container of `refurb.*` whose content
+    changed over five runs (two good, one mypy refuses, one in which a check raises, one good) is a component of
+    the table, is classified identity-keyed, and holds nothing but object addresses; the interpreter's recursion limit
+    is the same after every run, failed ones included; `int_max_str_digits` is overwritten; the builtins handle is
+    replaced by every run. -/
+theorem today_probe_agrees_with_scan :
+    Generated.dynamicMutated.all (fun n =>
+        Generated.globalsTable.disciplines.contains (n, .keyedByLiveNodeIdentity) && Generated.dynamicOnlyInts.contains n) = true ∧
+      Generated.probeLimitsKept = true ∧ Generated.probeDigitsOverwritten = true ∧ Generated.probeBuiltinsReplaced = true ∧
+      Generated.probeFailingRunsSeen = 2 := by decide +kernel
+
+/-- **History independence of today's refurb**: `history_independent` for the regenerated script. -/
+theorem history_independent_globals_today (hist : List History.Input) (next : History.Input) :
+    (History.runIn Generated.globalsScript (History.after Generated.globalsScript History.init hist) next).1
+      = (History.runIn Generated.globalsScript History.init next).1 :=
+  history_independent _ today_no_component_leaks hist next
+
+end RefurbVerif.C11
+
+/-! ### Non-vacuity of the whole-run grouping and history theorems -/
+
+namespace RefurbVerif.C11
+open RefurbVerif RefurbVerif.Run
+
+def gCat : List CheckSel := [⟨"FURB", 123, ["readability"], true⟩, ⟨"FURB", 105, ["builtin"], true⟩]
+
+/-- line 2 carries a bare `# noqa`; the check reports line 3 before line 1 (traversal order, not position order) -/
+def gA : FileIn :=
+  { path := "a.py".toList, rel := "a.py".toList, dump := "MypyFile:1(a.py)".toList
+    source := "x = int(0)\nprint(\"\")  # noqa\ny = str(\"\")\n".toList
+    raw := [⟨3, 4, "FURB".toList, 123, "m3".toList⟩, ⟨2, 0, "FURB".toList, 105, "m2".toList⟩, ⟨1, 4, "FURB".toList, 123, "m1".toList⟩] }
+
+def gB : FileIn :=
+  { path := "sub/b.py".toList, rel := "sub/b.py".toList, dump := "MypyFile:1(sub/b.py)".toList
+    source := "print(\"\")\n".toList, raw := [⟨1, 0, "FURB".toList, 105, "m2".toList⟩] }
+
+def gC : FileIn :=
+  { path := "c.py".toList, rel := "c.py".toList, dump := "MypyFile:1(c.py)".toList
+    source := "z = int(0)\nprint(\"\")\n".toList
+    raw := [⟨1, 4, "FURB".toList, 123, "m1".toList⟩, ⟨2, 0, "FURB".toList, 105, "m2".toList⟩] }
+
+def gIn : RunInput :=
+  { envColor := false, argv := [], config := .notFound, lineCfg := nlCfg, checks := gCat, mypy := .built [],
+    resolver := Paths.resolvePy [] 16 ["w"] }
+
+def gS : Settings := { enableAll := true, quiet := true, color := false }
+def gSE : Settings := { enableAll := true, quiet := true, color := false, sortBy := some "error" }
+
+theorem g_distinct : DistinctPaths [gC, gA, gB] := by unfold DistinctPaths; decide
+theorem g_paths : PathsIdentify ([gC] ++ [gA, gB]) := g_distinct.identify
+
+/-- (a) at work, `--sort error`: the two reports interleave in the joint one -/
+example : runRefurb (gIn.withFiles ([gC] ++ [gA, gB])) gSE =
+    some (List.merge
+      [.diag ⟨"c.py".toList, 2, 0, "FURB".toList, 105, "m2".toList⟩, .diag ⟨"c.py".toList, 1, 4, "FURB".toList, 123, "m1".toList⟩]
+      [.diag ⟨"sub/b.py".toList, 1, 0, "FURB".toList, 105, "m2".toList⟩, .diag ⟨"a.py".toList, 1, 4, "FURB".toList, 123, "m1".toList⟩,
+       .diag ⟨"a.py".toList, 3, 4, "FURB".toList, 123, "m3".toList⟩] (leItem .error)) :=
+  run_grouping_two_merge gIn gSE [gC] [gA, gB] _ _ g_paths (by decide +kernel) (by decide +kernel)
+
+example : runRefurb (gIn.withFiles ([gC] ++ [gA, gB])) gSE =
+    some [.diag ⟨"c.py".toList, 2, 0, "FURB".toList, 105, "m2".toList⟩, .diag ⟨"sub/b.py".toList, 1, 0, "FURB".toList, 105, "m2".toList⟩,
+          .diag ⟨"a.py".toList, 1, 4, "FURB".toList, 123, "m1".toList⟩, .diag ⟨"a.py".toList, 3, 4, "FURB".toList, 123, "m3".toList⟩,
+          .diag ⟨"c.py".toList, 1, 4, "FURB".toList, 123, "m1".toList⟩] := by decide +kernel
+
+/-- (b) at work: three groups of one file each, given in another order on the command line -/
+def gReports : List (List Item) :=
+  [[.diag ⟨"a.py".toList, 1, 4, "FURB".toList, 123, "m1".toList⟩, .diag ⟨"a.py".toList, 3, 4, "FURB".toList, 123, "m3".toList⟩],
+   [.diag ⟨"sub/b.py".toList, 1, 0, "FURB".toList, 105, "m2".toList⟩],
+   [.diag ⟨"c.py".toList, 1, 4, "FURB".toList, 123, "m1".toList⟩, .diag ⟨"c.py".toList, 2, 0, "FURB".toList, 105, "m2".toList⟩]]
+
+example : reportsOf gIn gS [[gA], [gB], [gC]] = some gReports ∧
+    runRefurb (gIn.withFiles [gC, gA, gB]) gS = some (mergeAll (sortByOf gS) gReports) :=
+  ⟨by decide +kernel,
+   run_grouping_any_partition gIn gS [gC, gA, gB] [[gA], [gB], [gC]] gReports (by decide) g_distinct.identify rfl (by decide +kernel)⟩
+
+/-- (d) at work: what the joint run says about a.py is what the run on a.py alone says -/
+example : runRefurb (gIn.withFiles [gA]) gS =
+    some ((([.diag ⟨"a.py".toList, 1, 4, "FURB".toList, 123, "m1".toList⟩, .diag ⟨"a.py".toList, 3, 4, "FURB".toList, 123, "m3".toList⟩,
+             .diag ⟨"c.py".toList, 1, 4, "FURB".toList, 123, "m1".toList⟩, .diag ⟨"c.py".toList, 2, 0, "FURB".toList, 105, "m2".toList⟩,
+             .diag ⟨"sub/b.py".toList, 1, 0, "FURB".toList, 105, "m2".toList⟩] : List Item)).filter (Item.isAbout gA.path)) :=
+  run_one_by_one gIn gS [gC, gA, gB] gA _ g_distinct (by decide) rfl (by decide +kernel)
+
+/-- **`PathsIdentify` is needed** for (a): two entries with the same path but different texts (the second one without
+    the `# noqa`) — the joint run looks every line up in the FIRST entry's text and suppresses both diagnostics,
+    the run on the second entry alone reports its own. -/
+def gA' : FileIn := { gA with source := "x = int(0)\nprint(\"\")\ny = str(\"\")\n".toList }
+
+theorem grouping_needs_paths :
+    ¬ PathsIdentify ([gA] ++ [gA']) ∧
+      runRefurb (gIn.withFiles ([gA] ++ [gA'])) gS ≠
+        (match runRefurb (gIn.withFiles [gA]) gS, runRefurb (gIn.withFiles [gA']) gS with
+          | some ra, some rb => some (ssort (leItem (sortByOf gS)) (ra ++ rb))
+          | _, _ => none) := by
+  refine ⟨fun h => ?_, by decide +kernel⟩
+  have := h gA (by simp) gA' (by simp) rfl
+  revert this; decide
+
+/-- **no `--debug` is needed for (d) to be meaningful**: with `--debug` the solo run also returns the tree dump, which
+    is not a diagnostic about the file -/
+example : runRefurb (gIn.withFiles [gB]) { gS with debug := true } =
+    some [.text "MypyFile:1(sub/b.py)".toList, .diag ⟨"sub/b.py".toList, 1, 0, "FURB".toList, 105, "m2".toList⟩] := by
+  decide +kernel
+
+/-- a script of today's shape (fixed here, so that the example does not move with the regenerated table): component 0
+    a cache cleared first, 1 an interpreter setting overwritten, 2 a module attribute assigned before the visit, 3 an
+    identity-keyed table, 4 a constant table -/
+def hScript : History.Script :=
+  [.op 0 .clear, .op 1 (.putConst 0), .free [], .op 2 (.put .cell),
+   .free [(2, .get .cell), (3, .get .liveNode), (3, .put .liveNode), (4, .get .stable)], .free [(0, .memo .stable)]]
+
+example : History.noLeaks hScript = true ∧
+    (List.range 5).map (History.classify hScript) =
+      [.resetAtRunStart, .overwrittenBeforeRead, .overwrittenBeforeRead, .keyedByLiveNodeIdentity, .constant] := by
+  decide +kernel
+
+/-- a good run: it looks node 4 up in the identity-keyed table, marks it if it is not there (ADAPTIVELY), then reads a
+    line of file 1 through the cache -/
+def hRun (v : Int) : History.Input :=
+  { val := fun c _ => if c = 0 then v else 1
+    prog := fun idx =>
+      if idx = 4 then .act 3 (.get .liveNode) 4 (fun seen => if seen.isNone then ask 3 (.put .liveNode) 4 else .done)
+      else if idx = 5 then ask 0 (.memo .stable) 1 else .done }
+
+/-- the hypotheses of `history_independent` at work: after a good run (file 1 holds 11, node 4 gets marked), a run
+    that ends after three instructions, and nothing else, the good run with the file changed to 22 reads the NEW line
+    and finds its own node 4 unmarked — what it reads in a fresh interpreter -/
+example : (History.runIn hScript (History.after hScript History.init [hRun 11, { hRun 11 with stop := some 3 }]) (hRun 22)).1
+    = [none, some 22] := by decide +kernel
+
+example : (History.runIn hScript History.init (hRun 22)).1 = [none, some 22] := by decide +kernel
+
+example : (History.runIn hScript (History.after hScript History.init [hRun 11, { hRun 11 with stop := some 3 }]) (hRun 22)).1
+    = (History.runIn hScript History.init (hRun 22)).1 :=
+  history_independent hScript (by decide +kernel) _ _
 
 end RefurbVerif.C11
